@@ -148,6 +148,25 @@ def lc_format(r):
     return fmt, args
 
 
+def us_format(r):
+    """literal text and %S conversions (the library's string type, valid UTF-8 with code points of every length and NULs),
+    with '-' flag, width and precision (also as '*'); the precision cuts inside code points"""
+    fmt, args = r.choice(LITS), []
+    for _ in range(r.choice([1, 1, 2])):
+        sp = "%" + ("-" if r.random() < 0.3 else "")
+        k = r.random()
+        if k < 0.35: sp += str(r.choice([1, 2, 3, 5, 8, 12]))
+        elif k < 0.45: sp += "*"; args.append(("i", r.choice([-7, 4, 9])))
+        k = r.random()
+        if k < 0.45: sp += "." + str(r.choice([0, 1, 2, 3, 4, 5, 6, 7, 9, 14]))
+        elif k < 0.55: sp += ".*"; args.append(("i", r.choice([-1, 0, 3, 5])))
+        txt = "".join(r.choice(["a", "b", " ", "\0", "\u00e4", "\u20ac", "\U0001f600", "%", "z"]) for _ in range(r.choice([0, 1, 2, 3, 5, 8, 20])))
+        fmt += (sp + "S").encode() + r.choice(LITS); args.append(("G", txt.encode("utf-8")))
+    if r.random() < 0.3:
+        fmt += b"%u"; args.append(("u", r.choice([0, 7, 4000000000])))
+    return fmt, args
+
+
 LITS = [b"", b"", b"x", b" ", b"abc ", b"value: ", b"[", b"] ", b", ", b"0x", b"\n", b"a longer piece of literal text, "]
 
 
@@ -276,6 +295,10 @@ def gen_cases(ctx, n_single, n_multi):
         fmt, args = lc_format(r)
         hist["lc"] = hist.get("lc", 0) + 1
         cases.append([line("pf", fmt, args, -1)])
+    for _ in range(n_single // 20):
+        fmt, args = us_format(r)
+        hist["S"] = hist.get("S", 0) + 1
+        cases.append([line("pf", fmt, args, -1)])
     for _ in range(n_single):
         add(*rand_format(r, nconv=1))
     for _ in range(n_multi):
@@ -292,7 +315,7 @@ def run(ctx):
                      "distinct by (format, arguments)")
     ctx.assumptions += ["x86-64 SysV calling convention: integer-class and double arguments of a variadic call are fetched "
                         "independently (the harness passes 6 integer-class and 8 double slots)",
-                        "%S and the %n-style conversions are outside the claim; %lc is compared with the model and the reference only (glibc has no multibyte form for a wide character in the C locale)",
+                        "the %n-style conversions are outside the claim; %S (library string argument, valid UTF-8) and %lc are compared with the model and the reference only (glibc has no multibyte form for a wide character in the C locale)",
                         "glibc 2.36 prints %#g wrongly when rounding carries into a new power of ten; there the exact "
                         "big-integer reference and the Lean specification (which agree) are the arbiter"]
     exe = ctx.build_harness("c09")
